@@ -23,6 +23,9 @@ if [ "$COLD" = 1 ]; then TARGET="$(mktemp -d /tmp/uec-cold-XXXXXX)"; fi
 mkdir -p "$FACTS" "$TARGET"
 rm -f "$FACTS"/*.json
 NONCE="n$$-$(date +%s%N)"
+# one extraction at a time per target dir (concurrent checks would race on the fingerprints)
+exec 9>"$TARGET.lock"
+flock 9
 # cargo's freshness cache would skip the wrapper: drop the members' fingerprints
 for prof in debug release; do
   if [ -d "$TARGET/$prof/.fingerprint" ]; then
